@@ -39,7 +39,8 @@ CPK = ["pass", "pass", "pass", "false", "raise"]
 RIDS = ["r1", "r2", "r3"]
 
 _req = st.lists(st.sampled_from(RIDS + ["r1", "zz"]), max_size=4)
-_exec = st.tuples(st.just("exec"), _req, st.integers(0, 9), st.sampled_from(WORK + ["return", "return"]), st.sampled_from(VALID + ["none", "true"])).map(list)
+_exec = st.tuples(st.just("exec"), _req, st.integers(0, 9), st.sampled_from(WORK + ["return", "return"]), st.sampled_from(VALID + ["none", "true"]),
+                  st.sampled_from([False, False, False, True])).map(list)
 
 
 @st.composite
@@ -54,7 +55,7 @@ def _case(draw):
         cp = {ph: "pass" for ph in cp}
     ops = [draw(_exec)]
     for _ in range(draw(st.integers(0, 5))):
-        ops.append(draw(st.one_of(_exec, st.just(["maint"]), st.tuples(st.just("kill"), st.sampled_from(["B0", "B1", "T0"])).map(list))))
+        ops.append(draw(st.one_of(_exec, _exec, st.just(["maint"]), st.tuples(st.just("kill"), st.sampled_from(["B0", "B1", "T0"])).map(list))))
     return {"path": draw(st.sampled_from(["system", "system", "cell"])), "resources": res, "background": bg, "cp": cp,
             "wd0": draw(st.sampled_from([False, False, True])), "ops": ops}
 
@@ -73,6 +74,19 @@ def enumerate_cases(tier):
             for req, work, val in itertools.product(reqs, WORK, VALID):
                 yield {"path": path, "resources": [["r1", False], ["r2", True]], "background": bg, "cp": cp, "wd0": False,
                        "ops": [["exec", req, 3, work, val]]}
+    yield from _retry_cases()
+
+
+def _retry_cases():
+    """an operation blocked on a preemptable resource retries under the same id with a higher priority (and takes it by preemption)"""
+    cp = {ph: "pass" for ph in ("G0", "G1", "S", "G2")}
+    for path in ("system", "cell"):
+        for work in WORK:
+            for val in ("none", "false"):
+                for tail in ([], [["exec", ["r1"], 2, "return", "none", False]], [["maint"], ["kill", "B0"]]):
+                    for first_prio in (1, 5):        # below / equal to the holder's priority: blocked either way
+                        yield {"path": path, "resources": [["r1", True], ["r2", True]], "background": [["B0", 5, ["r1"]]], "cp": cp, "wd0": False,
+                               "ops": [["exec", ["r1"], first_prio, "return", "none", False], ["exec", ["r2", "r1"], 9, work, val, True]] + tail}
 
 
 def judge(case):
@@ -116,12 +130,21 @@ def judge(case):
         return {rid: (lock.owner, lock.hold_count) for rid, lock in ctrl.resources.items()}
 
     nested_counter = [0]
+    last_tid = [None]
+
+    def ghosts():
+        """no resource may be owned by an operation that has ended (returned, killed, shut down)"""
+        return sorted((rid, lock.owner) for rid, lock in ctrl.resources.items() if lock.owner is not None and lock.owner not in ctrl.active_operations)
+
     for i, op in enumerate(case["ops"]):
         if op[0] == "maint":
             try:
                 (cell or system).run_maintenance()
             except Exception as e:
                 out.fail("raise:%s:run_maintenance" % type(e).__name__, "run_maintenance raised %s" % e, {"step": i})
+                return out
+            if ghosts():
+                out.fail("leak:ended-operation-owns-resource:maintenance", "after run_maintenance %s are owned by operations that are no longer active" % ghosts(), {"step": i})
                 return out
             continue
         if op[0] == "kill":
@@ -130,11 +153,18 @@ def judge(case):
             except Exception as e:
                 out.fail("raise:%s:kill_operation" % type(e).__name__, "kill_operation raised %s" % e, {"step": i})
                 return out
+            if ghosts():
+                out.fail("leak:ended-operation-owns-resource:kill", "after kill_operation(%s) %s are owned by operations that are no longer active" % (op[1], ghosts()), {"step": i, "op": op})
+                return out
             continue
         if op[0] != "exec":
             raise HarnessError("unknown op %r" % (op,))
-        _, req, prio, work, val = op
+        _, req, prio, work, val = op[:5]
         tid = "T%d" % i
+        if len(op) > 5 and op[5] and last_tid[0] is not None:
+            tid = last_tid[0]            # a retry under the same operation id (typically with another priority)
+            out.label("id-reused")
+        last_tid[0] = tid
         before = snapshot()
         # reference simulation of the acquisitions
         sim_owner = {rid: (lock.owner, lock.owner_priority, lock.allow_preemption) for rid, lock in ctrl.resources.items()}
@@ -171,7 +201,8 @@ def judge(case):
             owned = {rid: ctrl.resources[rid].owner == tid for rid in distinct if rid in ctrl.resources}
             log.append(("work", owned, tid in ctrl.active_operations))
             if work == "raise":
-                raise RuntimeError("work crashed")
+                from pbt.props._exc import make
+                raise make(i + len(req), "work crashed")
             if work == "kill-self":
                 system.kill_operation(tid, "self")
             elif work == "maintenance":
@@ -187,7 +218,8 @@ def judge(case):
         def validate_fn(res):
             log.append(("validate", res))
             if val == "raise":
-                raise RuntimeError("validate crashed")
+                from pbt.props._exc import make
+                raise make(i + prio, "validate crashed")
             return val == "true"
 
         try:
@@ -210,6 +242,9 @@ def judge(case):
             exitp = stop or ("work=%s" % work if work != "return" else ("validate=%s" % val if val in ("false", "raise") else "commit"))
             out.fail("leak:%s:%s" % (kind, exitp if kind == "exit-path" else "any"),
                      "operation %s returned but still owns %s" % (tid, leaked), d)
+            return out
+        if ghosts():
+            out.fail("leak:ended-operation-owns-resource:execute", "after %s returned, %s are owned by operations that are no longer active" % (tid, ghosts()), d)
             return out
         # (b) not active
         if tid in ctrl.active_operations:
